@@ -240,7 +240,7 @@ func (h *Hub) Latest(ds string, limits []int) ([]*Ent, error) {
 		if err != nil {
 			return nil, err
 		}
-		return fromEntities(r.Entities), nil
+		return FromEntities(r.Entities), nil
 	}
 	var out []*Ent
 	tok := ""
@@ -250,7 +250,7 @@ func (h *Hub) Latest(ds string, limits []int) ([]*Ent, error) {
 		if err != nil {
 			return nil, err
 		}
-		out = append(out, fromEntities(r.Entities)...)
+		out = append(out, FromEntities(r.Entities)...)
 		if len(r.Entities) == 0 {
 			break
 		}
@@ -263,7 +263,7 @@ func (h *Hub) Latest(ds string, limits []int) ([]*Ent, error) {
 	return out, nil
 }
 
-func fromEntities(es []*server.Entity) []*Ent {
+func FromEntities(es []*server.Entity) []*Ent {
 	out := make([]*Ent, len(es))
 	for i, e := range es {
 		out[i] = FromEntity(e)
@@ -284,7 +284,7 @@ func (h *Hub) Feed(ds string, since uint64, limits []int, latestOnly bool) ([]*E
 		if err != nil {
 			return nil, 0, err
 		}
-		return fromEntities(c.Entities), c.NextToken, nil
+		return FromEntities(c.Entities), c.NextToken, nil
 	}
 	var out []*Ent
 	tok := since
@@ -294,7 +294,7 @@ func (h *Hub) Feed(ds string, since uint64, limits []int, latestOnly bool) ([]*E
 		if err != nil {
 			return nil, 0, err
 		}
-		out = append(out, fromEntities(c.Entities)...)
+		out = append(out, FromEntities(c.Entities)...)
 		if c.NextToken == tok {
 			break
 		}
